@@ -1282,11 +1282,16 @@ impl<P: consensus::Parameters, U> Builder<P, U> {
     fn value_balance(&self) -> Result<ZatBalance, BalanceError> {
         let value_balances = [
             self.transparent_builder.value_balance()?,
-            self.sapling_builder
-                .as_ref()
-                .map_or_else(ZatBalance::zero, |builder| {
-                    builder.value_balance::<ZatBalance>()
-                }),
+            // The Sapling builder only guarantees that its running balance fits an `i64`;
+            // a balance outside the valid monetary range is an overflow of this transaction's
+            // balance, not a programming error.
+            self.sapling_builder.as_ref().map_or_else(
+                || Ok(ZatBalance::zero()),
+                |builder| {
+                    ZatBalance::from_i64(builder.value_balance::<i64>())
+                        .map_err(|_| BalanceError::Overflow)
+                },
+            )?,
             self.orchard_builder.as_ref().map_or_else(
                 || Ok(ZatBalance::zero()),
                 |builder| {
@@ -2398,6 +2403,42 @@ mod tests {
         let parts = builder.build_for_pczt(OsRng, &Free).unwrap().pczt_parts;
         assert!(parts.orchard.is_none());
         assert_eq!(parts.ironwood.unwrap().actions().len(), 2);
+    }
+
+    #[test]
+    #[cfg(feature = "circuits")]
+    fn sapling_balance_out_of_range_is_an_error_not_a_panic() {
+        // A spent Sapling note worth more than MAX_MONEY is accepted by the Sapling builder
+        // (its running balance only has to fit an i64); building must report the overflow.
+        let extsk = ExtendedSpendingKey::master(&[]);
+        let dfvk = extsk.to_diversifiable_full_viewing_key();
+        let to = dfvk.default_address().1;
+        let note = to.create_note(
+            sapling::value::NoteValue::from_raw(zcash_protocol::value::MAX_MONEY + 1),
+            Rseed::AfterZip212([7; 32]),
+        );
+        let mut tree = CommitmentTree::<Node, 32>::empty();
+        tree.append(Node::from_cmu(&note.cmu())).unwrap();
+        let witness = IncrementalWitness::from_tree(tree).unwrap();
+        let tx_height = TEST_NETWORK.activation_height(NetworkUpgrade::Nu5).unwrap();
+        let mut builder = Builder::new(
+            TEST_NETWORK,
+            tx_height,
+            BuildConfig::Standard {
+                sapling_anchor: Some(witness.root().into()),
+                orchard_anchor: None,
+                ironwood_anchor: None,
+                orchard_padding: BundlePadding::DEFAULT,
+                ironwood_padding: BundlePadding::DEFAULT,
+            },
+        );
+        builder
+            .add_sapling_spend::<Infallible>(dfvk.fvk().clone(), note, witness.path().unwrap())
+            .unwrap();
+        assert_matches!(
+            builder.mock_build(&TransparentSigningSet::new(), &[extsk], &[], OsRng),
+            Err(Error::Balance(BalanceError::Overflow))
+        );
     }
 
     #[test]
